@@ -361,12 +361,25 @@ private def exFst : AFn :=
 example : InGoFragment {} [exTuple, exFst] 0 exTuple ∧ InGoFragment {} [exTuple, exFst] 0 exFst := by
   constructor <;> (unfold InGoFragment; decide +kernel)
 
-/-- a function that builds an array is outside the fragment (the model still compiles it: the tie
-    covers it, the theorem does not) -/
+/-- arrays are inside: `fn mk(a) { [a, a] }`, `fn upd(x, i) { array_get(array_set(x, i, 7), 0) }` (out-of-range
+    indexing panics on both sides) -/
+private def tArr : Ty := .array 2 t32
 private def exArray : AFn :=
-  { name := "arr", params := [("a/0", t32)], ret := .array 2 t32,
-    body := .ret (.array [.var "a/0" t32, .var "a/0" t32] (.array 2 t32)) }
-example : ¬ InGoFragment {} [exArray] 0 exArray := by unfold InGoFragment; decide +kernel
+  { name := "arr", params := [("a/0", t32)], ret := tArr,
+    body := .ret (.array [.var "a/0" t32, .var "a/0" t32] tArr) }
+private def exUpd : AFn :=
+  { name := "upd", params := [("x/0", tArr), ("i/1", t32)], ret := t32,
+    body := .letE "y/2" (.call (.var "array_set" (.func [tArr, t32, t32] tArr)) [.var "x/0" tArr, .var "i/1" t32, litI 7] tArr)
+      (.ret (.call (.var "array_get" (.func [tArr, t32] t32)) [.var "y/2" tArr, litI 0] t32)) t32 }
+example : InGoFragment {} [exArray, exUpd] 0 exArray ∧ InGoFragment {} [exArray, exUpd] 0 exUpd := by
+  constructor <;> (unfold InGoFragment; decide +kernel)
+
+/-- a function that pushes to a `Vec` is outside the fragment (the model still compiles it: the tie
+    covers it, the theorem does not) -/
+private def exVec : AFn :=
+  { name := "push", params := [("v/0", .vec t32)], ret := .vec t32,
+    body := .ret (.call (.var "vec_push" (.func [.vec t32, t32] (.vec t32))) [.var "v/0" (.vec t32), litI 1] (.vec t32)) }
+example : ¬ InGoFragment {} [exVec] 0 exVec := by unfold InGoFragment; decide +kernel
 end Examples
 
 end Goml.GoCompileProps
